@@ -49,3 +49,31 @@ def ret_exprs(fn, P, variant='Result::Ok'):
             if rv['k'] == 'aggr' and rv.get('akind') == 'adt' and '%s::%s' % (last(rv['adt']), rv['variant']) == variant and rv['ops']:
                 out.append((b, i, rv['ops'][0]))
     return out
+
+
+def slice_sites(fn, P, cn, pname):
+    """every place where a sub-slice of parameter `pname` is formed — x[a..b], x.split_at(k), slices of such slices —
+    as (block, [normalised `index($p, range)` expressions]).  split_at yields two.  The expressions are normalised, so
+    `x.split_at(65).1.split_at(32).0` and `x[65..97]` are the same site value."""
+    from .prov import strip
+    out = []
+    for b, t in fn.calls():
+        if t['fn']['k'] != 'def' or last(t['fn']['name']) not in ('index', 'index_mut', 'split_at', 'split_at_mut') or not t['args']:
+            continue
+        if t['target'] is None or t['dest']['p']:
+            continue
+        n = len(fn.blocks[b]['stmts'])
+        a0 = strip(norm(P.operand(t['args'][0], b, n)))
+        root = a0
+        while root.k == 'call' and last(root.name) in ('index', 'index_mut') and root.args:
+            root = strip(root.args[0])
+        if not (root.k == 'param' and root.name == pname):
+            continue
+        dest = norm(P.local(t['dest']['l'], t['target'], 0))
+        if last(t['fn']['name']).startswith('split_at'):
+            from .prov import E, simplify_slices
+            parts = [simplify_slices(norm(E('field', str(i), [dest], c={'fidx': i}))) for i in (0, 1)]
+        else:
+            parts = [dest]
+        out.append((b, parts))
+    return out
